@@ -22,7 +22,7 @@ var schemeOf = map[string]string{"https": "https", "http": "http", "app": "com.e
 var hostOf = map[string]string{"reg": "client.example", "regUp": "Client.Example", "sub.reg": "x.client.example", "evil": "evil.example",
 	"localhost": "localhost", "127.0.0.1": "127.0.0.1", "::1": "[::1]", "localhost.evil": "localhost.evil.example"}
 var portOf = map[string]string{"": "", "p1": ":8080", "p2": ":9090"}
-var globOf = map[string]string{"G1": "https://*.client.example/cb", "G2": "https://client.example/**", "G3": "http://localhost:*/cb", "Gbad": "https://client.example/["}
+var globOf = map[string]string{"G1": "https://*.client.example/cb", "G2": "https://client.example/**", "G3": "http://localhost:*/cb", "G4": "https://client.example/cb/*", "Gbad": "https://client.example/["}
 
 // ConcreteURI is the injective concretisation of a URI record of RedirectURI.tla.
 func ConcreteURI(u M) string {
